@@ -66,6 +66,10 @@ def run(tier, replay=None):
     for i, x in enumerate(lits):
         src, bl, cl = wtcorpus.lit_program(x)
         cases.append({"Id": "l%d" % i, "Src": src, "valid": x["valid"], "lines": [bl, cl], "row": x})
+    arity = [json.loads(l) for l in open(os.path.join(wd, "wt_arity.ndjson"))]
+    for i, x in enumerate(arity):
+        src, ln = wtcorpus.arity_program(x)
+        cases.append({"Id": "a%d" % i, "Src": src, "exp": x["ok"], "lines": ln, "row": x})
     for mid, src, ln in wtcorpus.mutants():
         cases.append({"Id": "m:" + mid, "Src": src, "exp": False, "lines": ln, "row": {"kind": "mutant", "id": mid}})
     with open(os.path.join(wd, "c.ndjson"), "w") as f:
@@ -83,6 +87,8 @@ def run(tier, replay=None):
     def describe(x):
         if x["kind"] == "mutant":
             return "mutant " + x["id"]
+        if x["kind"] == "arity":
+            return "%s statement binding (%s) where (%s) %s declared" % (x["where"], ", ".join(x["given"]), ", ".join(x["decl"]), "are" if len(x["decl"]) != 1 else "is")
         if x["kind"] == "lit":
             return "literal %s for %s" % (json.dumps(mro.untag(x["v"]) if '"file"' not in json.dumps(x["v"]) else x["v"])[:80], wtcorpus.ts(x["t"]))
         return "%s %s%s -> %s" % (x["kind"], wtcorpus.ts(x["s"]), "".join("." + q for q in x["path"]), wtcorpus.ts(x["t"]))
@@ -152,7 +158,7 @@ def run(tier, replay=None):
     vlib.write_evidence("C07", tier, "model_checking", {
         "states": len(rows) + len(lits), "transitions": len(cases) + nrun, "exhaustive": True,
         "traces_validated_against_impl": len(cases) + nrun,
-        "acceptance_rows": len(rows), "literal_rows": len(lits), "mutants": len(wtcorpus.mutants()),
+        "acceptance_rows": len(rows), "arity_rows": len(arity), "literal_rows": len(lits), "mutants": len(wtcorpus.mutants()),
         "verdict_counts": counts, "strict_mode_runs": nrun, "conversion_runs": len(progs),
         "samples": [{"row": describe(rows[0]), "model_ok": rows[0]["ok"], "compiler_accepts": res["r0"]["ok"]}],
         "known_findings_hit": hit,
